@@ -10,8 +10,12 @@ use serde_json::{json, Value};
 #[derive(Serialize, Deserialize, Clone, Debug)]
 pub struct Phase {
     /// 0 saturating (offered >= 1.3 q per second), 1 offered about q/c, 2 offered about q/(2c), 3 idle
+    /// 4 = exactly `count` arrivals in each second (steering: the drains since the cold start are chosen so that the
+    /// token bucket lands exactly on the warning line before an idle gap)
     pub kind: u8,
     pub secs: u32,
+    #[serde(default)]
+    pub count: u32,
 }
 
 #[derive(Serialize, Deserialize, Clone, Debug)]
@@ -74,9 +78,28 @@ impl Prop for C08 {
         let offset_ms = rng.below(grid_ms as u64) as u32;
         let mut ops = vec![];
         let mut total = 0u32;
-        // always begin with saturation long enough to reach q
+        // One run in three starts with a steered drain: from the cold start (bucket full) exactly max - warning tokens
+        // are admitted, floor(q/c) or more per second (so that nothing is refilled), then a single request makes the
+        // last drain happen and an idle gap follows: the bucket sits exactly on the warning line when traffic stops.
+        // (Steering only: the token arithmetic is the documented one; whether the line was hit is a reach probe.)
+        if rng.chance(1, 3) {
+            let f = (q / ceff) as u64;
+            let d = 2 * (p as f64 * q as f64 / (ceff + 1) as f64) as u64;
+            if f >= 1 && d >= 2 * f && d / f - 1 <= 60 {
+                let m = d / f - 1;
+                for _ in 0..m {
+                    ops.push(Phase { kind: 4, secs: 1, count: f as u32 });
+                }
+                ops.push(Phase { kind: 4, secs: 1, count: (d - m * f) as u32 });
+                ops.push(Phase { kind: 4, secs: 1, count: 1 });
+                ops.push(Phase { kind: 3, secs: 2 * p + *rng.pick(&[0u32, 1, p]), count: 0 });
+                ops.push(Phase { kind: 0, secs: rng.range(2, (2 * p + 3) as u64) as u32, count: 0 });
+                total += m as u32 + 2 + 2 * p + 2;
+            }
+        }
+        // then always saturation long enough to reach q
         let first = 2 * p + 2 + rng.range(0, 5) as u32;
-        ops.push(Phase { kind: 0, secs: first });
+        ops.push(Phase { kind: 0, secs: first, count: 0 });
         total += first;
         while total < 200 && ops.len() < 8 {
             let kind = *rng.pick(&[0u8, 0, 1, 2, 3, 3]);
@@ -85,14 +108,14 @@ impl Prop for C08 {
                 0 => rng.range(1, (2 * p + 4) as u64) as u32,
                 _ => rng.range(1, (p + 3) as u64) as u32,
             };
-            ops.push(Phase { kind, secs });
+            ops.push(Phase { kind, secs, count: 0 });
             total += secs;
             if total >= 40 && rng.chance(1, 3) {
                 break;
             }
         }
         // finish with saturation so that a preceding idle gap is observed
-        ops.push(Phase { kind: 0, secs: rng.range(2, (2 * p + 3) as u64) as u32 });
+        ops.push(Phase { kind: 0, secs: rng.range(2, (2 * p + 3) as u64) as u32, count: 0 });
         let epoch_ns = slot_ns - slot_ns % SEC + rng.below(600) * SEC; // whole second
         serde_json::to_value(Scn { epoch_ns, res: format!("c08_{:x}", rng.below(0xffffff)), q, c, p, grid_ms, offset_ms, ops }).unwrap()
     }
@@ -154,6 +177,8 @@ fn run(sc: &Scn, w: &mut World, tr: &mut Trace, cov: &mut Cov) -> Option<Violati
     let mut reached_q = false;
     let mut cold_restart_checked = false;
     let mut first_sat_second_of_run = true;
+    let mut steered_admitted = 0u64;
+    let steer_total: u64 = sc.ops.iter().filter(|p| p.kind == 4 && p.count != 1).map(|p| p.count as u64).sum();
     for (pi, ph) in sc.ops.iter().enumerate() {
         if ph.kind == 3 {
             // idle seconds are part of the time line of half-second buckets (the window oracle looks at adjacent halves)
@@ -192,7 +217,7 @@ fn run(sc: &Scn, w: &mut World, tr: &mut Trace, cov: &mut Cov) -> Option<Violati
             let mut k = 0u64;
             let mut t = first_arrival;
             while t < sec_start + 1000 {
-                if k % stride == 0 {
+                if (ph.kind != 4 && k % stride == 0) || (ph.kind == 4 && k < ph.count as u64) {
                     let now = w.now_ms();
                     if t > now {
                         w.advance((t - now) * MS);
@@ -282,7 +307,16 @@ fn run(sc: &Scn, w: &mut World, tr: &mut Trace, cov: &mut Cov) -> Option<Violati
             } else {
                 sat_run = 0;
                 prev_allow = None;
-                cov.hit(if ph.kind == 1 { "seconds_at_floor_rate" } else { "seconds_below_floor_rate" });
+                if ph.kind == 4 {
+                    // the steered drain replaces the cold start of the run: the next saturating second after the idle
+                    // gap is a cold *re*start
+                    first_sat_second_of_run = false;
+                    steered_admitted += admitted;
+                    if ph.count == 1 && admitted == 1 && steered_admitted == steer_total + 1 && allow >= q * (1.0 - 1e-9) {
+                        cov.hit("idle_gap_begins_with_the_bucket_on_the_warning_line");
+                    }
+                }
+                cov.hit(if ph.kind == 1 { "seconds_at_floor_rate" } else if ph.kind == 4 { "seconds_of_steered_drain" } else { "seconds_below_floor_rate" });
             }
             idle_run_secs = 0;
             sec_index += 1;
